@@ -1323,7 +1323,16 @@ func ruleIndexGuard(c *Ctx) {
 						isSpanPos = tn == "Span"
 					}
 				}
-				if !fromEnd && !isSpanPos {
+				// a position found by a search over the very same bytes is an element position, not an end
+				isFound := false
+				if sc, ok := ia.Index.(*ssa.Call); ok {
+					if f := sc.Call.StaticCallee(); f != nil && f.Pkg != nil && (f.Pkg.Pkg.Path() == "bytes" || f.Pkg.Pkg.Path() == "strings") && strings.HasPrefix(f.Name(), "Index") {
+						if len(sc.Call.Args) > 0 && (sc.Call.Args[0] == ia.X || sameTerm(sc.Call.Args[0], ia.X)) {
+							isFound = true
+						}
+					}
+				}
+				if !fromEnd && !isSpanPos && !isFound {
 					eachInstr(fn, func(x ssa.Instruction) {
 						if s2, ok := x.(*ssa.Slice); ok && s2.High != nil && (s2.X == ia.X || sameTerm(s2.X, ia.X)) {
 							if s2.High == ia.Index || sameTerm(s2.High, ia.Index) {
